@@ -28,7 +28,7 @@ fixtab = "\n".join(f"| `{l.split(' ',1)[0]}` | {l.split(' ',1)[1]} |" for l in f
 tpl = re.sub(r"\| commit \| what \|\n\|---\|---\|\n(?:\|.*\|\n)+", "| commit | what |\n|---|---|\n" + fixtab + "\n", tpl)
 
 rows = []
-missed1 = []; nfi1 = []; missed3 = []; nfi3 = []; missed4 = []; nfi4 = []; missed5 = []; nfi5 = []
+missed1 = []; nfi1 = []; missed3 = []; nfi3 = []; missed4 = []; nfi4 = []; missed5 = []; nfi5 = []; missed6 = []; nfi6 = []
 for f in sorted(glob.glob(V + '/seeded/*/meta.json')):
     m = json.load(open(f))
     ch = re.sub(r'^(Change|C\d\d change|#+)\s*\d*\s*[-:–—.]?\s*', '', m['change']).strip()
@@ -42,7 +42,10 @@ for f in sorted(glob.glob(V + '/seeded/*/meta.json')):
         first = 'caught'
     else:
         first = 'caught' if fr['concrete_failing_input_found'] else ('caught, no input' if fr['detected'] else 'missed')
-    if m.get('round') == 5:
+    if m.get('round') == 6:
+        if first == 'missed': missed6.append(m['id'])
+        if first == 'caught, no input': nfi6.append(m['id'])
+    elif m.get('round') == 5:
         if first == 'missed': missed5.append(m['id'])
         if first == 'caught, no input': nfi5.append(m['id'])
     elif m.get('round') == 4:
@@ -64,11 +67,11 @@ for f in sorted(glob.glob(V + '/seeded/*/meta.json')):
         stren.append(f"* **{m['id']}** – {sw}")
 seeded = f'''### 13.7 Seeded breaking changes and which checks catch them
 
-Two hundred changes, ten per property, in five rounds.  Each was written by a fresh sub-agent that saw
+Two hundred and forty changes, twelve per property, in six rounds.  Each was written by a fresh sub-agent that saw
 only the text of one property and a scratch worktree (nothing from /verif), was asked for a
 plausible maintainer edit that needs something specific to manifest, and was confirmed by hand in
 a scratch worktree: applies to HEAD, builds, the whole existing suite passes, the demonstration
-fails with the change and passes without it (the demonstrations of C15-4, C15-6 and C15-8 need `-race`; five patches of earlier rounds that touch `nativeMapToObject` were rebased onto fix `7308254` and confirmed again).  They are kept
+fails with the change and passes without it (the demonstrations of C15-4, C15-6 and C15-8 need `-race`; five patches of earlier rounds that touch `nativeMapToObject` were rebased onto fix `7308254`, four of them and one of round 6 again onto fix `20fdb84`, and confirmed again).  They are kept
 under `/verif/seeded/<id>/` (`patch.diff`, `demo_test.go`, `notes.md`, `meta.json`).  Each was
 applied to /repo (`git -C /repo apply`), the quick check of its property run, and the tree
 restored (`git -C /repo checkout -- .`).
@@ -130,9 +133,19 @@ language of the harness only had string keys.  What was added is listed below; t
 (6) the renders the worker performs before every request include rejected templates of every kind and
 rotate, so that each is the last one before some request; (7) the worker scribbles over what it
 passed to the API (the configuration struct) once the call has returned; (8) expected outputs are
-attached to repetition families too, because twenty repetitions can agree and all be wrong.  Now all
-two hundred are reported by the quick check of their own property with a concrete failing input as
-replay.
+attached to repetition families too, because twenty repetitions can agree and all be wrong.
+
+Round 6 (ids `-11`, `-12`) went back to the plain request: no word about the harness, *realistic* small
+edits of the kind a reviewer approves (an off-by-one while tidying, a flipped or loosened comparison,
+a helper extracted with a slightly different meaning, a near-equivalent library call, a fix for one case
+that breaks its neighbour), showing on inputs a user could really write.  This is the round that
+measures what the accumulated machinery does against ordinary mistakes: {40 - len(missed6) - len(nfi6)} of 40 were caught at once
+with a concrete failing input, {len(nfi6)} only as a broken obligation ({', '.join(nfi6)}) and {len(missed6)} were missed
+({', '.join(missed6)}): strings of white space only as conditions, a struct that implements
+`fmt.Stringer`, and nil slices / nil maps (which print like empty ones; only their length, their
+iteration or `@dump` tell).  Writing the family for types with methods exposed a defect of the
+unchanged tree (named scalar types, fix `20fdb84`).  Now all two hundred and forty are reported by
+the quick check of their own property with a concrete failing input as replay.
 
 What was added for the ones not caught (or caught without an input) at first:
 
@@ -144,9 +157,10 @@ What was added for the ones not caught (or caught without an input) at first:
 
 ### 13.8 What remains open
 
-* C01: the text → token half of the layout independence is not a theorem; the `{{a}}` shorthand of
-  object literals is outside the round trip.
-* C03: the passes of a loop as a computed function (now: relational).
+* C01: the `{{a}}` shorthand of object literals is outside the round trip; that the parser builds the
+  same tree from two token lists that differ in positions only is shown on the printer's image.
+* C03: the passes of a loop are computed for bodies of text and plain variables; for other bodies they
+  are hypotheses of the relational description.
 * C05: interleavings of text with code blocks and directives as one theorem.
 * C11: numeric conversions against a real-number specification.
 * the evaluator's fuel is a constant (10^5): theorems about whole renders carry a size bound.
